@@ -15,6 +15,7 @@ CONSTANTS
   MaxSocks = 3
   MaxOps = 4
   NoWrap = FALSE
+  StallHosts = {}
   ProbeActs = FALSE
   FillFrom = 0
   SwAddrs = {"lo", "a1", "a2", "b1", "x"}
